@@ -111,7 +111,7 @@ def _a_predicates(chk):
 DRIVERS = [("fixed", "_FixedStepRK._integrate_fixed_rk_until_event", False), ("fixed", "_FixedStepRK._integrate_fixed_rk_until_event_ham", True),
            ("rk45", "_RK45._integrate_rk45_until_event", False), ("rk45", "_RK45._integrate_rk45_until_event_ham", True),
            ("dop853", "_DOP853._integrate_dop853_until_event", False), ("dop853", "_DOP853._integrate_dop853_until_event_ham", True)]
-GRID = ["0", "1/2", "1", "3/2"]
+GRID = ["0", "1/4", "1", "3/2"]      # non-uniform on purpose (a hoisted step size must show)
 
 
 def _result_ok(fam, out, ref):
